@@ -200,13 +200,29 @@ def make_case(rng):
     # the property quantifies over "anticipated/unanticipated mode": a plan is in ONE mode; plans mixing both kinds of swaps
     # (and anticipated plans with later unanticipated background shocks, which split the simulation into frames that no longer
     # see the earlier anticipated instruments) are not decided
-    mode = str(rng.choice(["anticipated", "unanticipated"]))
+    # ... EXCEPT mixed plans that are exactly identified frame by frame: the unanticipated swap dates are the break points
+    # of the simulation, and every anticipated swap has its instrument date and its target date before the first break
+    # point (added after a seeded change that only showed in the second frame of such a plan)
+    mode = str(rng.choice(["anticipated", "unanticipated", "mixed"], p=[0.35, 0.35, 0.3]))
     cells = []
     used = set()
-    for _ in range(ncell):
-        kind = mode if mode != "mixed" else str(rng.choice(["anticipated", "unanticipated"]))
+    breaks, window = [], (0, T)
+    if mode == "mixed":
+        if T < 4:
+            mode = "unanticipated"
+        else:
+            breaks = sorted(set(int(b) for b in rng.integers(1, T, size=int(rng.integers(1, 3)))))
+            # the window is the FIRST one: an ordinary simulation announces every anticipated shock at the start, whereas a plan
+            # re-announces the anticipated instruments of a later frame at that frame's first period, so only anticipated swaps
+            # before the first break point are an inversion of the ordinary simulation
+            window = (0, breaks[0])
+            ncell = max(ncell, len(breaks) + 1)
+    for ci in range(ncell):
+        kind = mode if mode != "mixed" else ("unanticipated" if ci < len(breaks) else "anticipated")
         i = int(rng.integers(0, len(shocks)))
         t_s = int(rng.integers(0, T))
+        if mode == "mixed":
+            t_s = breaks[ci] if kind == "unanticipated" else int(rng.integers(window[0], window[1]))
         if kind == "anticipated" and method == "stacked_time":
             pass
         if (shocks[i], t_s, kind) in used:
@@ -216,6 +232,8 @@ def make_case(rng):
         t_x = t_s if kind == "unanticipated" else int(rng.integers(t_s, min(T, t_s + 3)))
         if rng.random() < 0.25 and kind == "anticipated":
             t_x = int(rng.integers(max(0, t_s - 2), t_s + 1))   # target before the anticipated shock date (leads make it identified)
+        if mode == "mixed" and kind == "anticipated":
+            t_x = min(max(t_x, window[0]), window[1] - 1)
         cells.append({"shock": shocks[i], "t_s": t_s, "kind": kind, "var": tnames[i % len(tnames)], "t_x": t_x,
                       "value": float(np.round(rng.normal(0, scale) * rng.uniform(0.3, 2), 5) or scale)})
     # the same (variable, date) cannot be a target twice
@@ -232,10 +250,12 @@ def make_case(rng):
             continue
         if mode == "anticipated" and kind == "unanticipated":
             t = 0
+        if mode == "mixed" and kind == "unanticipated":
+            t = int(rng.choice([0] + breaks))   # no additional break points
         background.append([nm, t, kind, float(np.round(rng.normal(0, scale), 5))])
     rr = M.render_source(spec, None, 0)
     return {"kind": "plan", "family": family, "method": method, "spec": spec, "steady": steady, "meta": meta, "source": rr["source"], "T": T,
-            "cells": cells, "background": background, "deviation": bool(rng.random() < 0.3) if method == "first_order" else False}
+            "cells": cells, "background": background, "mode": mode, "hist": int(rng.integers(0, 2 ** 31)) if rng.random() < 0.4 else None, "deviation": bool(rng.random() < 0.3) if method == "first_order" else False}
 
 
 def run_case(c, case):
@@ -266,6 +286,11 @@ def run_case(c, case):
         if not _linre.square_solution_consistent(m.get_solution().T, m.get_eigenvalues()):
             c.inconc("model-determinate-by-count-only(rank condition fails)")
             return
+        if case.get("hist") is not None:
+            # history of the model object: query operations before the monitored plan simulations on the same solved model
+            from ..workloads import history as Hist
+            for op in Hist.perturb(m, case["hist"], spec, freq="mm"):
+                c.note("history:" + op)
         T = case["T"]
         start = ir.mm(2022, 3)
         span = ir.Span(start, start + (T - 1))
@@ -364,6 +389,45 @@ def run_case(c, case):
             if np.max(np.abs(a - b)) > tol * (1 + np.max(np.abs(b))):
                 c.violation(f"inversion:path-not-reproduced:{method}", f"{q['name']}: max discrepancy {np.max(np.abs(a - b)):.3e} (impact cond {cond:.1e})")
                 return
+
+
+        # ---- the planned path is an ordinary simulation of its own shocks on a FRESH model object (no history, empty caches)
+        if method == "first_order" or case.get("hist") is not None:
+            try:
+                with rt.quiet(), np.errstate(all="ignore"):
+                    m2 = ir.Simultaneous.from_string(case["source"], **spec["flags"])
+                    m2.assign(**{p["name"]: p["value"] for p in spec["params"]})
+                    if family == "N":
+                        m2.assign(**{n: (lvl, chg) for n, (lvl, chg) in case["steady"].items()})
+                    m2.solve_steady()
+                    m2.solve()
+                    db3 = db2.copy()
+                    for n_ in [q["name"] for q in spec["tshocks"]]:
+                        for nm_ in (n_, "ant_" + n_):
+                            if nm_ in out:
+                                ser = db3[nm_].copy() if nm_ in db3 else ir.Series()
+                                ser[span] = np.nan_to_num(np.asarray(out[nm_].get_data(sp), dtype=float))
+                                db3[nm_] = ser
+                    _BUSY["on"] = True
+                    try:
+                        re2 = m2.simulate(db3, span, when_fails="silent", **kw)
+                    finally:
+                        _BUSY["on"] = False
+            except Exception as exc:
+                c.inconc(f"fresh-model-resimulation-failed:{type(exc).__name__}")
+                return
+            for q in spec["tvars"]:
+                a = np.asarray(out[q["name"]].get_data(sp), dtype=float)[:, 0]
+                b = np.asarray(re2[q["name"]].get_data(sp), dtype=float)[:, 0]
+                c.event("planned", "is-an-ordinary-simulation-on-a-fresh-model", key=("fresh", method, kinds, case.get("hist") is not None), nontrivial=True)
+                if not np.all(np.isfinite(b)):
+                    c.inconc("fresh-model-resimulation-not-finite")
+                    return
+                if np.max(np.abs(a - b)) > max(tol, 1e-8) * (1 + np.max(np.abs(b))):
+                    c.violation(f"planned:path-differs-from-simulation-of-its-own-shocks-on-a-fresh-model:{method}",
+                                f"{q['name']}: max discrepancy {np.max(np.abs(a - b)):.3e} (the model object that ran the plan had "
+                                f"{'a history of earlier queries' if case.get('hist') is not None else 'no earlier history'})")
+                    return
 
 
 def replay(c, case):
